@@ -784,6 +784,47 @@ theorem gen_sound : Statement_gen_sound := by
 theorem gen_quiescent : Statement_gen_quiescent :=
   fun n pat req => ⟨drain_eq_triples n pat req, runGen_runAll n pat req⟩
 
+/-- `Graph.triples_choices` / `Store.triples_choices` (a list of terms in ONE position of the pattern; the empty list
+    is the wildcard): exactly the visible triples that match the two other positions and whose term in the list's
+    position is one of the choices — each once when the choices are distinct (a repeated choice repeats its triples) -/
+def Statement_triples_choices : Prop :=
+  ∀ (ops : List StOp) (sl : Slot) (choices : List Nat) (a b : Option Nat) (ctx : Option Nat),
+    (∀ t, t ∈ (NMem.init.stRun ops).triplesChoices sl choices a b ctx ↔
+        ((QK.run QK.empty ops).sees ctx t ∧ (sl.pat a b none).matches t = true ∧
+          (choices = [] ∨ sl.get t ∈ choices))) ∧
+    (choices.Nodup → ((NMem.init.stRun ops).triplesChoices sl choices a b ctx).Nodup)
+
+theorem triples_choices : Statement_triples_choices := by
+  intro ops sl choices a b ctx
+  have hO := nstoreObsAgree_of (nsim_run ops _ _ nsim_init)
+  unfold NMem.triplesChoices
+  cases choices with
+  | nil =>
+    simp only [List.isEmpty_nil, if_true, true_or, and_true]
+    exact ⟨(hO.triples _ ctx).2, fun _ => (hO.triples _ ctx).1⟩
+  | cons c r =>
+    simp only [List.isEmpty_cons, Bool.false_eq_true, if_false, reduceCtorEq, false_or]
+    constructor
+    · intro t
+      simp only [List.mem_flatMap, (hO.triples _ ctx).2, slot_matches]
+      constructor
+      · rintro ⟨x, hx, h1, h2, h3⟩; exact ⟨h1, h2, h3 ▸ hx⟩
+      · rintro ⟨h1, h2, h3⟩; exact ⟨_, h3, h1, h2, rfl⟩
+    · intro hnd
+      refine nodup_flatMap_disjoint hnd (fun x _ => (hO.triples _ ctx).1) ?_
+      intro x _ y _ hxy t hx hy
+      have e1 := ((slot_matches sl a b x t).1 (((hO.triples _ ctx).2 t).1 hx).2).2
+      have e2 := ((slot_matches sl a b y t).1 (((hO.triples _ ctx).2 t).1 hy).2).2
+      exact hxy (e1.symm.trans e2)
+
+/-- the nested indexes after the store-level history `exStOps`: only LEAF keys were deleted — the emptied inner
+    dictionaries `spo[4][2]`, `spo[5][2]`, `osp[3][4]`, `osp[3][5]` are still there — and the walks ignore them -/
+example : (NMem.init.stRun exStOps).ispo = [(1, [(2, [3])]), (4, [(2, [])]), (5, [(2, [])])] ∧
+    (NMem.init.stRun exStOps).ipos = [(2, [(3, [1])])] ∧
+    (NMem.init.stRun exStOps).iosp = [(3, [(1, [2]), (4, []), (5, [])])] ∧
+    (NMem.init.stRun exStOps).drain (none, none, some 3) none = [(1, 2, 3)] ∧
+    (NMem.init.stRun exStOps).triplesChoices .s [5, 1, 1] (some 2) none (some 1) = [(1, 2, 3), (1, 2, 3)] := by decide
+
 /-- a schedule on which the concrete generator really walks two levels between mutations: `(1,?,?)` on graph 0;
     `(1,2,4)` is removed before the inner copy `[3,4]` reaches it, `(1,5,6)` is added under a NEW second-level key after
     the outer copy `[2]` was taken (not seen), `(1,2,7)` under the already expanded key (not seen either) -/
